@@ -126,6 +126,19 @@ where
         }
     }
 
+    // 5. A word with more than t errors can pass the tests above and still be
+    // "corrected" into something that is not a codeword (for an odd number of
+    // error codewords the malfunction test never looks at the last syndrome).
+    // Only report success if all syndromes of the result vanish.
+    let corrected = data
+        .iter()
+        .copied()
+        .step_by(stride)
+        .chain(error.iter().copied().step_by(stride));
+    if super::primitive_element_evaluation(corrected, &mut syndromes) {
+        return Err(ErrorDecodingError::Malfunction);
+    }
+
     Ok(())
 }
 
